@@ -900,3 +900,72 @@ def c13(rec):
             except Exception as e:  # noqa
                 out.append(V("parametrisation_%s:%s" % (fname, type(e).__name__), st="declined_error", det=str(e)[:80]))
     return out
+
+
+# ---------------------------------------------------------------------------
+# C14: sampling
+
+def c14(rec):
+    """C14 (sampling): x.sample(vars, sample_inputs) for 3 seeds, each drawn twice
+    (determinism); the returned term is an event for TLC's relational sampling spec."""
+    from collections import OrderedDict
+    from . import fast
+    sig = "mask%s pat%s vars{%s} ns%s" % (rec["sig"]["mask"], rec["sig"]["pat"], ",".join(sorted(rec["sig"]["vars"])), rec["sig"]["ns"])
+    f = fbuild.Builder().build(rec["f"])
+    vs = frozenset(n for n, _ in rec["vars"])
+    sins = OrderedDict((n, fbuild.dom_of(d)) for n, d in rec["sample_inputs"])
+    out = []
+    for seed in (0, 1, 2):
+        try:
+            np.random.seed(seed)
+            r1 = f.sample(vs, sins)
+            np.random.seed(seed)
+            r2 = f.sample(vs, sins)
+        except Exception as e:  # noqa
+            out.append(_verdict("C14", "declined_error", "sample:" + type(e).__name__, str(e)[:100], sig=sig))
+            continue
+        try:
+            a1, a2 = fast.to_ast(r1), fast.to_ast(r2)
+        except fast.Unrepresentable as ex:
+            out.append(_verdict("C14", "skipped_unrepresentable", str(ex)[:60], sig=sig))
+            continue
+        if a1 != a2:
+            out.append(_verdict("C14", "mismatch", "sample_not_deterministic", {"seed": seed}, sig=sig))
+        else:
+            out.append(_verdict("C14", "agree", sig=sig))
+        out.append({"status": "_event", "event": {"kind": "sample", "what": "tensor_sample", "sig": sig + " seed%d" % seed,
+                                                  "f": rec["f"], "vars": rec["vars"], "sample_inputs": rec["sample_inputs"],
+                                                  "result": a1, "lhs": rec["f"]}})
+    return out
+
+
+
+def c14delta(rec):
+    """C14 (Delta semantics): a Delta evaluates to its log-density at the point and to minus
+    infinity elsewhere; (Delta + f) reduced over the Delta's variable evaluates f at the
+    point.  Values of eager evaluation vs the denotation TLC computed."""
+    def has_delta(t):
+        if isinstance(t, dict):
+            return t.get("c") == "Delta" or any(has_delta(v) for v in t.values())
+        if isinstance(t, list):
+            return any(has_delta(v) for v in t)
+        return False
+    if not has_delta(rec["t"]):
+        return []
+    exp = rec["exp"]
+    try:
+        r = _build(rec)
+    except Exception as e:  # noqa
+        return [_verdict("C14", "declined_error", type(e).__name__, str(e)[:100])]
+    v = _eval_check(r, exp, "C14", "delta", need_output=False)
+    if v["status"] == "mismatch":
+        def nonunit(t):
+            if isinstance(t, dict):
+                if t.get("c") == "Delta" and any(ld != {"c": "Num", "v": ["R", 0, 1], "dt": 0} for _, _, ld in t["terms"]):
+                    return True
+                return any(nonunit(x) for x in t.values())
+            if isinstance(t, list):
+                return any(nonunit(x) for x in t)
+            return False
+        v["feature"] = "reduce_of_nonunit_delta" if nonunit(rec["t"]) else "none"
+    return [v]
